@@ -1,5 +1,6 @@
 import CoapVerif.Model.Observe
 import CoapVerif.Model.ObserveKey
+import CoapVerif.Model.ObserveToken
 import CoapVerif.Util
 /- Line-protocol driver for C11: replays an event history (harness/observe.c documents the format) through M.
    Lines with a block-wise resource (`R=…b<start>[/<szx>]…` or `B…`, events `blk:…`) are NOT modelled: M has no lg_xmit and no
@@ -11,8 +12,23 @@ namespace Coap.Driver.Observe
 open Coap Coap.Observe
 
 def hex2 (n : Nat) : String := String.ofList [hexDigit (n / 16 % 16), hexDigit (n % 16)]
-/-- harness/observe.c: token index t < 128 is the 2 bytes (0xA0 + c, t), t >= 128 the 2 bytes (0x9F, t) whichever client sends it -/
-def showTok (c tok : Nat) : String := if tok ≥ 128 then "9f" ++ hex2 tok else hex2 (160 + c) ++ hex2 tok
+/-- the 8-byte strings the variable-length tokens of harness/observe.c (tok_bytes) are prefixes of -/
+def tokFamily (f : Nat) : List Nat :=
+  if f = 0 then [0x51, 0x62, 0x73, 0x84, 0x95, 0xa6, 0xb7, 0xc8]
+  else if f = 1 then [0, 0, 0, 0, 0, 0, 0, 0]
+  else if f = 2 then [0xa0, 0x01, 0x02, 0x03, 0x04, 0x05, 0x06, 0x07]
+  else [0x9f, 0x80, 0x9f, 0x80, 0x9f, 0x80, 0x9f, 0x80]
+/-- harness/observe.c tok_bytes: token index t < 128 is the 2 bytes (0xA0 + c, t), 128 ≤ t < 256 the 2 bytes (0x9F, t) whichever
+    client sends it, t = 256 + 9·f + len (≤ 291) the first len (0..8) bytes of family f -/
+def tokenBytes (c t : Nat) : List Nat :=
+  if t ≥ 256 then (tokFamily ((t - 256) / 9)).take ((t - 256) % 9)
+  else if t ≥ 128 then [0x9f, t] else [0xa0 + c, t]
+def maxTokIdx : Nat := 291
+/-- M's token (the injective encoding `tokNat` of the bytes, Model/ObserveToken.lean) printed as the harness prints the bytes -/
+def showTok (tok : Nat) : String :=
+  match natTok tok with
+  | [] => "-"
+  | bs => String.join (bs.map hex2)
 def showKind : Kind → String
   | .con => "C" | .non => "N" | .ack => "A"
 def showObs : Option Nat → String
@@ -21,12 +37,12 @@ def b01 (b : Bool) : String := if b then "1" else "0"
 
 def showOut (o : Out) : String :=
   match o.tag with
-  | .resp => s!"p{o.c}:{showTok o.c o.token}:{o.code}:{showObs o.obs}:{showKind o.kind}:{o.mid}"
-  | .note => s!"n{o.c}.{o.n}:{showTok o.c o.token}:{o.code}:{showObs o.obs}:{showKind o.kind}:{o.mid}"
+  | .resp => s!"p{o.c}:{showTok o.token}:{o.code}:{showObs o.obs}:{showKind o.kind}:{o.mid}"
+  | .note => s!"n{o.c}.{o.n}:{showTok o.token}:{o.code}:{showObs o.obs}:{showKind o.kind}:{o.mid}"
   | .rtx => s!"x{o.c}.{o.n}"
 
 def showSub (s : Sub) : String :=
-  s!"{s.sess}.{showTok s.sess s.token}.{s.nonCnt}.{s.failCnt}.{b01 s.dirty}.{s.mid}"
+  s!"{s.sess}.{showTok s.token}.{s.nonCnt}.{s.failCnt}.{b01 s.dirty}.{s.mid}"
 
 def showRes (r : Res) : String :=
   if r.alive then s!" R{r.id}={r.observe}/{b01 r.dirty}{b01 r.pdirty}[{String.intercalate "," (r.subs.map showSub)}]"
@@ -84,11 +100,11 @@ def reqOpts (obs : Option Nat) (r q x : Nat) : List ReqOpt :=
   (if x = 4 then [{ num := 60, val := [] }] else []) ++
   (if x = 5 then [{ num := 60, val := [2] }] else [])
 
-/-- `c:r:t:q:k:mid[:x]` → (c, r, token index, cache key of the request (Model/ObserveKey.lean), CON?, mid) -/
+/-- `c:r:t:q:k:mid[:x]` → (c, r, token = tokNat of the token bytes of index t, cache key of the request (Model/ObserveKey.lean), CON?, mid) -/
 def parseReq (obs : Option Nat) (f : List String) (ncli nres : Nat) : Option (Nat × Nat × Nat × Nat × Bool × Nat) :=
   let go (c r t q k mid : String) (x : Nat) : Option (Nat × Nat × Nat × Nat × Bool × Nat) := do
     let c ← c.toNat?; let r ← r.toNat?; let t ← t.toNat?; let q ← q.toNat?; let k ← parseKind k; let mid ← mid.toNat?
-    if c < ncli ∧ r < nres ∧ t ≤ 255 ∧ q ≤ 4 ∧ mid ≤ 65535 ∧ x ≤ 5 then some (c, r, t, obsKey (reqOpts obs r q x), k, mid) else none
+    if c < ncli ∧ r < nres ∧ t ≤ maxTokIdx ∧ q ≤ 4 ∧ mid ≤ 65535 ∧ x ≤ 5 then some (c, r, tokNat (tokenBytes c t), obsKey (reqOpts obs r q x), k, mid) else none
   match f with
   | [c, r, t, q, k, mid] => go c r t q k mid 0
   | [c, r, t, q, k, mid, x] => do let x ← x.toNat?; go c r t q k mid x
@@ -138,7 +154,7 @@ def validBlk (f : List String) (ncli : Nat) (rs : List String) : Bool :=
   | [c, r, t, q, k, mid, num] =>
     match c.toNat?, r.toNat?, t.toNat?, q.toNat?, parseKind k, mid.toNat?, num.toNat? with
     | some c, some r, some t, some q, some _, some mid, some num =>
-      decide (c < ncli ∧ r < rs.length ∧ t ≤ 255 ∧ q ≤ 2 ∧ mid ≤ 65535 ∧ num ≤ 255) && isBlockRes (rs.getD r "")
+      decide (c < ncli ∧ r < rs.length ∧ t ≤ maxTokIdx ∧ q ≤ 2 ∧ mid ≤ 65535 ∧ num ≤ 255) && isBlockRes (rs.getD r "")
     | _, _, _, _, _, _, _ => false
   | _ => false
 
